@@ -42,8 +42,8 @@ func Alphabet() []*regattapb.Command {
 		Del("\x00", wild, false, true),
 		Del("ab", wild, false, false),
 		Del("\x00", B("b"), true, false),
-		Del("b", B("a"), false, true),  // inverted
-		Del("a", B("a"), true, true),   // empty
+		Del("b", B("a"), false, true),    // inverted
+		Del("a", B("a"), true, true),     // empty
 		Del("ab", []byte{}, false, true), // present-but-empty upper bound: empty range
 		PutBatch("a", "1", "ab", "2"),
 		PutBatch("a", "1", "a", "2"),
